@@ -42,6 +42,8 @@ def configs(tier):
     # units of one annotator may start together (the container then orders them by end, then label)
     out.append(dict(key="sizes=(2, 1),window=1,ties-on-start-allowed", sizes=[2, 1], w=1, ties=True, cost=3000, split=24))
     out.append(dict(key="job-dispatch", kind="dispatch", cost=1))
+    for c_ in out:
+        c_.setdefault("path_alarm_s", 20)       # one path of the fast alignment takes milliseconds: a path still running after 20 s does not terminate
     out.append(dict(key="sizes=(1, 1),window=1,after-earlier-fast-alignment-and-remove", sizes=[1, 1], w=1, warm=True, cost=3000, split=24))
     if tier == "thorough":
         out.append(dict(key="sizes=(2, 1),window=1,after-earlier-fast-alignment-and-remove", sizes=[2, 1], w=1, warm=True, cost=30000, split=48))
